@@ -24,15 +24,21 @@ pub fn gcd<const BITS: usize, const LIMBS: usize>(
         swap(&mut a, &mut b);
     }
     while b != Uint::ZERO {
+        #[cfg(recmo_uint_verif)]
+        crate::verif_hooks::step("gcd");
         debug_assert!(a >= b);
         let m = LehmerMatrix::from(a, b);
         if m == LehmerMatrix::IDENTITY {
+            #[cfg(recmo_uint_verif)]
+            crate::verif_hooks::hit(crate::verif_hooks::C::GCD_FALLBACK);
             // Lehmer step failed to find a factor, which happens when
             // the factor is very large. We do a regular Euclidean step, which
             // will make a lot of progress since `q` will be large.
             a %= b;
             swap(&mut a, &mut b);
         } else {
+            #[cfg(recmo_uint_verif)]
+            crate::verif_hooks::hit(crate::verif_hooks::C::GCD_LEHMER_STEP);
             m.apply(&mut a, &mut b);
         }
     }
@@ -87,9 +93,13 @@ pub fn gcd_extended<const BITS: usize, const LIMBS: usize>(
     let mut t1 = Uint::ONE;
     let mut even = true;
     while b != Uint::ZERO {
+        #[cfg(recmo_uint_verif)]
+        crate::verif_hooks::step("gcd_extended");
         debug_assert!(a >= b);
         let m = LehmerMatrix::from(a, b);
         if m == LehmerMatrix::IDENTITY {
+            #[cfg(recmo_uint_verif)]
+            crate::verif_hooks::hit(crate::verif_hooks::C::GCDEXT_FALLBACK);
             // Lehmer step failed to find a factor, which happens when
             // the factor is very large. We do a regular Euclidean step, which
             // will make a lot of progress since `q` will be large.
@@ -102,6 +112,8 @@ pub fn gcd_extended<const BITS: usize, const LIMBS: usize>(
             swap(&mut t0, &mut t1);
             even = !even;
         } else {
+            #[cfg(recmo_uint_verif)]
+            crate::verif_hooks::hit(crate::verif_hooks::C::GCDEXT_LEHMER_STEP);
             m.apply(&mut a, &mut b);
             m.apply(&mut s0, &mut s1);
             m.apply(&mut t0, &mut t1);
@@ -162,9 +174,13 @@ pub fn inv_mod<const BITS: usize, const LIMBS: usize>(
     let mut t1 = Uint::ONE;
     let mut even = true;
     while b != Uint::ZERO {
+        #[cfg(recmo_uint_verif)]
+        crate::verif_hooks::step("inv_mod");
         debug_assert!(a >= b);
         let m = LehmerMatrix::from(a, b);
         if m == LehmerMatrix::IDENTITY {
+            #[cfg(recmo_uint_verif)]
+            crate::verif_hooks::hit(crate::verif_hooks::C::INVMOD_FALLBACK);
             // Lehmer step failed to find a factor, which happens when
             // the factor is very large. We do a regular Euclidean step, which
             // will make a lot of progress since `q` will be large.
@@ -175,6 +191,8 @@ pub fn inv_mod<const BITS: usize, const LIMBS: usize>(
             swap(&mut t0, &mut t1);
             even = !even;
         } else {
+            #[cfg(recmo_uint_verif)]
+            crate::verif_hooks::hit(crate::verif_hooks::C::INVMOD_LEHMER_STEP);
             m.apply(&mut a, &mut b);
             m.apply(&mut t0, &mut t1);
             even ^= !m.4;
